@@ -1,6 +1,8 @@
 use tokio::time::Instant;
 
+/// Source of the current time for a [LockableLruCache](crate::LockableLruCache)
 pub trait TimeProvider {
+    /// The current time
     fn now(&self) -> Instant;
 }
 
